@@ -203,8 +203,15 @@ func NewWorld(cfg Config, oracles []Oracle, logOn bool) (*World, error) {
 	for i := 0; i < cfg.NVals; i++ {
 		v := &ValActor{Idx: i, Oper: hub.NewAccount(fmt.Sprintf("val%d", i)), Cons: hub.DetConsKey(fmt.Sprintf("val%d", i)),
 			Orch: map[string]*hub.Account{}, ExtKey: map[string]*ecdsa.PrivateKey{}}
+		if cfg.EdgeOper && i < 2 {
+			// account addresses at the two ends of the key space (store ranges bounded by "prefix + 0xff" miss the first)
+			v.Oper = edgeAccount(fmt.Sprintf("val%d", i), []byte{0xff, 0x00}[i])
+		}
 		for _, ch := range Chains {
 			v.Orch[ch] = hub.NewAccount(fmt.Sprintf("orch%d-%s", i, ch))
+			if cfg.EdgeOper && i < 2 {
+				v.Orch[ch] = edgeAccount(fmt.Sprintf("orch%d-%s", i, ch), []byte{0x00, 0xff}[i])
+			}
 			v.ExtKey[ch] = ext.DetEthKey(fmt.Sprintf("val%d-%s", i, ch))
 			if cfg.EdgeKeys && i < 2 {
 				// addresses at the two ends of the key space: 0xff... sorts after every prefix bound built by
@@ -278,6 +285,9 @@ func NewWorld(cfg Config, oracles []Oracle, logOn bool) (*World, error) {
 	params.AverageEthereumBlockTime = cfg.AvgEthBlockMs
 	params.AverageBscBlockTime = cfg.AvgBscBlockMs
 	params.OutgoingTxTimeout = cfg.OutgoingTxTimeoutMs
+	if cfg.SignerSetWindow > 0 {
+		params.SignedSignerSetTxsWindow = cfg.SignerSetWindow
+	}
 	var infos []*mhub2types.TokenInfo
 	for _, t := range cfg.Tokens {
 		infos = append(infos, &mhub2types.TokenInfo{Id: t.ID, Denom: t.Denom, ChainId: t.Chain, ExternalTokenId: t.ExtID,
@@ -439,6 +449,25 @@ var userKeyCache sync.Map
 // userExtKey: deterministic external keys; odd users get addresses that begin with a zero nibble (user 3: a
 // zero byte), the shape that prefix-stripping and number-like parsing of addresses get wrong.
 var edgeKeyCache sync.Map
+
+var edgeAccCache sync.Map
+
+// edgeAccount: a deterministic hub account whose address starts with the given byte.
+func edgeAccount(label string, first byte) *hub.Account {
+	id := fmt.Sprintf("%s/%02x", label, first)
+	if a, ok := edgeAccCache.Load(id); ok {
+		c := *a.(*hub.Account)
+		return &c
+	}
+	for j := 0; ; j++ {
+		a := hub.NewAccount(fmt.Sprintf("%s/e%d", id, j))
+		if a.Addr[0] == first {
+			edgeAccCache.Store(id, a)
+			c := *a
+			return &c
+		}
+	}
+}
 
 // edgeKey: a deterministic key whose address starts with the given byte.
 func edgeKey(label string, first byte) *ecdsa.PrivateKey {
